@@ -32,7 +32,7 @@ def items(tier):
             continue
         sp = F.with_teams(fl, "DED")
         out.append((sp, {"rule": "TSLACK", "max_time": F.seq_bound(sp) + 8}))
-    for sp in F.ff_held_component_specs():
+    for sp in F.ff_held_component_specs() + [F.loaned_worker_spec()]:
         out.append((sp, {"rule": "TSLACK", "max_time": F.seq_bound(sp) + 8}))
     # resources sharing a name (the constructor default gives every unnamed worker / facility the same name): IDs differ
     for r0, r1 in ((4.0, 6.0), (0.0, 3.0), (2.0, 2.0)):
@@ -125,7 +125,7 @@ def run(tier, seed):
     oi = option_items(tier)
     col.merge(stepcheck.explore(oi, MONS, 0, 0, seed=seed))
     # rates agreed at a stop (or between two runs) for resources that have not worked yet
-    col.merge(stepcheck.explore(stepcheck.resumed_edit_items(("set-rates",), ks=(1, 2, 3, 4)) + stepcheck.edited_items(names=("set-rates",)), MONS, 0, 0, seed=seed))
+    col.merge(stepcheck.explore(stepcheck.resumed_edit_items(("set-rates",), ks=(1, 2, 3, 4)) + stepcheck.resumed_edit_items(("untarget-running-task",), ks=(2, 3)) + stepcheck.edited_items(names=("set-rates",)), MONS, 0, 0, seed=seed))
     col.merge(stepcheck.explore(F.scale_items(("TSLACK",)), MONS, 0, 0, seed=seed))  # medium-sized models (10-14 tasks / workers / machines), long absence lists
     col.merge(stepcheck.explore(F.extra_items(("TSLACK",), calendars=True), MONS, 0, 0, seed=seed))  # other ways of building the object graph; continuations under a revised calendar
     meta = {
